@@ -1650,6 +1650,71 @@ def opc14_async_position_310(ctx: Ctx) -> None:
     ctx.R.ok("OPC-14", f"3.9 / 3.10: is_async iff YIELD_FROM here or next; one step back iff here ({len(rows)} combinations)")
 
 
+def opc15_exit_sites(ctx: Ctx) -> None:
+    """OPC-15 which with-block a normal-path __exit__ / __aexit__ call belongs to, on CPython 3.11+.  FACTS (exit_sites): for 19
+    single-with function shapes per interpreter (body falling off its end, return, break / continue, and bodies *ending* in a
+    try/except, try/finally, loop, if, ...) the compiled bytecode, its exception table, every normal-path exit call site and
+    the offset of the with-block's own handler (PUSH_EXC_INFO; WITH_EXCEPT_START).  currently_exiting_context is evaluated
+    (engine MINI: the whole function body, frame.f_lasti at the call -- for async exits at the SEND and at the YIELD_VALUE) and
+    must return that handler with the right is_async.  This is the rule that states finding F2: for bodies that end in a
+    compound statement the exception-table entry ending just before the exit call is an inner one"""
+    from types import SimpleNamespace as NS
+    from ..minieval import Mini, Raised, Unsupported, _Return
+    mod = ctx.P.mod("_lowlevel")
+    fn = mod.fn("currently_exiting_context")
+    n_ok = 0
+    for v in sorted(ctx.V.all, key=lambda s_: tuple(map(int, s_.split(".")))):
+        IF = ctx.F["interp"][v]
+        shapes = IF.get("exit_sites")
+        if not shapes:
+            continue
+        omap = IF["opmap"]
+        for name, sh in sorted(shapes.items()):
+            if not sh["sites"]:
+                continue
+            for site in sh["sites"]:
+                sh = dict(sh, handler=site["handler"], is_async=site["is_async"])
+                positions = [("call", site["call"])] if not sh["is_async"] else [("send", site["send"]), ("yield_value", site["yield_value"])]
+                for pname, pos in positions:
+                    warned: List[str] = []
+                    code_obj = NS(co_code=list(sh["co_code"]), co_consts=[None if x else 0 for x in sh["consts_none"]], co_name=name)
+                    env = {"frame": NS(f_lasti=pos, f_code=code_obj), "dis": NS(opmap=dict(omap), hasjabs=[], hasjrel=[]), "sys": NS(version_info=tuple(IF["version_info"]), implementation=NS(name="cpython")),
+                           "warnings": NS(warn=lambda *a, **k: warned.append("warn")), "InspectionWarning": "InspectionWarning", "types": NS()}
+                    ext = {"bytes": lambda x: list(x), "ExitingContext": lambda **k: NS(**k), "_parse_exception_table": lambda c_, _e=sh["entries"]: [tuple(x) for x in _e], "len": len}
+                    m = Mini(env, {}, ext, fuel=20000)
+                    # module-level constants the function may name (tables of opcode names and the like); what cannot be evaluated is skipped
+                    for a_ in mod.tree.body:
+                        if isinstance(a_, (ast.Assign, ast.AnnAssign)) and isinstance(a_.targets[0] if isinstance(a_, ast.Assign) else a_.target, ast.Name) and getattr(a_, "value", None) is not None \
+                                and norm(a_.targets[0] if isinstance(a_, ast.Assign) else a_.target) not in env:
+                            try:
+                                m.stmt(a_)
+                            except (Unsupported, Raised, Exception):
+                                pass
+                    res = "fell off"
+                    try:
+                        for st in fn.body:
+                            m.stmt(st)
+                    except _Return as r:
+                        res = r.value
+                    except Raised as ex:
+                        res = f"raises {ex.kind}"
+                    except Unsupported as ex:
+                        ctx.R.undecided("OPC-15", f"{v} {name}: currently_exiting_context is outside the evaluator's fragment: {ex}")
+                        return
+                    got = (getattr(res, "cleanup_offset", None), getattr(res, "is_async", None)) if isinstance(res, NS) else res
+                    want = (sh["handler"], sh["is_async"])
+                    if got == want:
+                        n_ok += 1
+                        ctx.R.ok("OPC-15", f"{v} {name} ({pname} at {pos}): handler {sh['handler']}", "FACTS exit_sites")
+                    else:
+                        what = f"returns handler offset {got[0]} (is_async={got[1]})" if isinstance(got, tuple) else ("returns None" + (" after a warning" if warned else "") if res is None else str(res))
+                        ctx.R.fail("OPC-15", mod, fn, f"CPython {v}, with-body shape `{name}`, frame inside the normal-path exit call ({pname} at offset {pos}): currently_exiting_context {what}; the with-block's "
+                                   f"handler is at {sh['handler']} (is_async={sh['is_async']}): the exiting manager is attributed to the wrong block or lost (KeyError in the trickery path -> InspectionWarning and "
+                                   "fallback)", construct=f"{v}: exit site of shape {name} ({pname})")
+    if n_ok < 20:
+        raise AnalysisError(f"OPC-15: only {n_ok} exit sites resolved correctly; the evaluation is probably not reaching the matcher")
+
+
 def opc13_exception_path_exit(ctx: Ctx) -> None:
     """OPC-13 the exception-path exit: a frame whose position is the WITH_EXCEPT_START of a with-block's handler is exiting that
     block, and the block is identified by the handler's first instruction.  FACTS (with_handler_prefix): the handler starts
@@ -2021,6 +2086,9 @@ def opc6_exit_templates(ctx: Ctx) -> None:
                     for x in after:
                         for cc in ast.walk(x):
                             if isinstance(cc, ast.Compare):
+                                tested |= set(opnames_in(cc))
+                            elif isinstance(cc, ast.Call) and isinstance(cc.func, ast.Name) and cc.func.id in mod.defs and any(norm(a_) in ("offs", "code") or "offs" in norm(a_) for a_ in cc.args):
+                                # the opcode is handed to a helper of this module together with the position: the test lives there
                                 tested |= set(opnames_in(cc))
                     # EXTENDED_ARG is a prefix glued to the instruction it extends (here the LOAD_CONST that starts the window):
                     # on the way back it is met before any optional filler that precedes the window
